@@ -639,8 +639,9 @@ func (r *PipelineRunner) resolveScheduleAction(pipeline string, ignoreStartDelay
 }
 
 func (r *PipelineRunner) resolveDequeueJobAction(job *PipelineJob) scheduleAction {
-	// Start the job if it had a start delay but the timer finished
-	ignoreStartDelay := job.StartDelay > 0 && job.startTimer == nil
+	// A job on the wait list without a pending start timer has no delay to wait for (any more): it had no start delay when
+	// it was queued, or its timer finished. The start delay of the current definition only applies to new jobs.
+	ignoreStartDelay := job.startTimer == nil
 	return r.resolveScheduleAction(job.Pipeline, ignoreStartDelay)
 }
 
